@@ -21,12 +21,8 @@ def z_matrix():
 
 
 def h_matrix():
-    return sympy.Matrix(
-        [
-            [(1 / np.sqrt(2)), (1 / np.sqrt(2))],
-            [(1 / np.sqrt(2)), (-1 / np.sqrt(2))],
-        ]
-    )
+    value = float(1 / np.sqrt(2))
+    return sympy.Matrix([[value, value], [value, -value]])
 
 
 def i_matrix():
